@@ -6,6 +6,7 @@ import (
 	"sort"
 	"strings"
 
+	yae "github.com/goghcrow/yae"
 	"github.com/goghcrow/yae/types"
 	"github.com/goghcrow/yae/val"
 )
@@ -506,33 +507,53 @@ func runC07(c *Ctx) {
 				continue
 			}
 			for _, backend := range backends {
+				// compile every applicable program once; progs[0] (`tr(7)`)
+				// mentions no name, so it is safe to evaluate on ANY
+				// environment: it is used as the probe of the check
+				type compiled struct {
+					p   c07prog
+					tr  *trace
+					cl  yae.Callable
+					in0 string
+				}
+				var cs []compiled
 				for _, p := range progs {
 					if !p.applicable(base) {
 						continue
 					}
 					tr := &trace{}
-					eng := newEngine(backend, tr)
 					in0 := fmt.Sprintf("%s [%s] compiled with %s %s", p.src, backend, cf, base)
-					cl, o := compile(eng, p.src, base.typeSide(cf))
+					cl, o := compile(newEngine(backend, tr), p.src, base.typeSide(cf))
 					if cl == nil {
 						c.fail("C07/setup/compile", in0, "compiles", o.String(), "")
 						continue
 					}
-					for _, m := range muts {
-						for _, rf := range allForms {
-							if !m.env.formable(rf) {
-								continue
-							}
+					cs = append(cs, compiled{p, tr, cl, in0})
+				}
+				for _, m := range muts {
+					for _, rf := range allForms {
+						if !m.env.formable(rf) {
+							continue
+						}
+						for i, k := range cs {
 							nPairs++
-							in := fmt.Sprintf("%s; invoked with %s %s (%s)", in0, rf, m.env, m.name)
-							nontrivial := len(p.needs) > 0 || m.name != "identical" || rf != cf
+							in := fmt.Sprintf("%s; invoked with %s %s (%s)", k.in0, rf, m.env, m.name)
+							nontrivial := len(k.p.needs) > 0 || m.name != "identical" || rf != cf
 							c.eval(in, nontrivial)
 							if bi == 1 && nPairs%211 == 0 {
 								c.R.Sample(clip(in, 400))
 							}
-							tr.reset()
-							res := call(cl, m.env.valueSide(rf))
-							c07Judge(c, in, p, base, m, res, tr)
+							k.tr.reset()
+							res := call(k.cl, m.env.valueSide(rf))
+							wrong := c07Judge(c, in, k.p, base, m, res, k.tr)
+							if i == 0 && wrong && !accepts(base, m.env) {
+								// the check let a mismatching environment
+								// through: evaluating programs that read the
+								// mistyped names would read memory through
+								// wrong casts; the violation is recorded,
+								// the remaining programs are skipped
+								break
+							}
 						}
 					}
 				}
@@ -546,30 +567,35 @@ func runC07(c *Ctx) {
 	)
 }
 
-func c07Judge(c *Ctx, in string, p c07prog, base *menv, m c07mut, res outcome, tr *trace) {
+func c07Judge(c *Ctx, in string, p c07prog, base *menv, m c07mut, res outcome, tr *trace) (violated bool) {
 	if !accepts(base, m.env) {
 		key := "C07/mismatch-rejected-nothing-evaluated/" + m.class
 		switch {
 		case res.Panic != "":
 			c.fail(key, in, "error returned, nothing evaluated", res.String(), "")
+			return true
 		case res.Err == nil:
 			c.fail(key, in, "error returned, nothing evaluated", "accepted: "+res.String(), "trace "+fmt.Sprint(tr.log))
+			return true
 		case len(tr.log) != 0:
 			c.fail(key, in, "error returned, nothing evaluated", "error, but evaluated "+fmt.Sprint(tr.log), "")
+			return true
 		}
-		return
+		return false
 	}
 	key := "C07/equal-types-accepted-evaluates/" + m.class
 	if !res.ok() {
 		c.fail(key, in, "accepted", res.String(), "")
-		return
+		return true
 	}
 	// expected value from the run-time environment (names the compile-time
 	// environment knows; extra names are irrelevant)
 	want, wantTrace := p.eval(m.env)
 	if res.V.Type.Kind != types.KNum || res.V.Num().V != want || !sameStrings(tr.log, wantTrace) {
 		c.fail(key, in, fmt.Sprintf("%v with trace %v", want, wantTrace), fmt.Sprintf("%s with trace %v", res.String(), tr.log), "")
+		return true
 	}
+	return false
 }
 
 func sameStrings(a, b []string) bool {
